@@ -411,22 +411,13 @@ func parseConstraint(constraintStr string) (constraint, error) {
 // groupConstraintsIntoIntervals groups VERS constraints into intervals according to the specification
 func groupConstraintsIntoIntervals(constraints []constraint) ([]interval, error) {
 	var intervals []interval
-	var lowerBounds []constraint
-	var upperBounds []constraint
 	var exactMatches []constraint
-	var excludes []constraint
 
 	// Separate constraints by type
 	for _, constraint := range constraints {
 		switch constraint.operator {
 		case "=":
 			exactMatches = append(exactMatches, constraint)
-		case "!=":
-			excludes = append(excludes, constraint)
-		case ">=", ">":
-			lowerBounds = append(lowerBounds, constraint)
-		case "<=", "<":
-			upperBounds = append(upperBounds, constraint)
 		}
 	}
 
@@ -439,127 +430,45 @@ func groupConstraintsIntoIntervals(constraints []constraint) ([]interval, error)
 
 	// Excludes are handled separately in the contains function, not as intervals
 
-	// Handle range constraints (lower/upper bounds)
-	if len(lowerBounds) > 0 || len(upperBounds) > 0 {
-		// For VERS spec compliance, we need to analyze the constraint pattern:
-		// 1. If there are multiple bounds of the same type, take the most restrictive
-		// 2. If there's a mix creating logical intervals, pair them appropriately
-
-		// Determine if we should merge constraints (most restrictive) or create multiple intervals
-		shouldMerge := shouldMergeConstraints(lowerBounds, upperBounds)
-
-		if shouldMerge {
-			// Merge constraints: use most restrictive bounds
-			var mostRestrictiveLower *constraint
-			var mostRestrictiveUpper *constraint
-
-			// Find most restrictive lower bound (highest version)
-			// Since constraints are already sorted by version, take the last lower bound
-			if len(lowerBounds) > 0 {
-				mostRestrictiveLower = &lowerBounds[len(lowerBounds)-1]
-			}
-
-			// Find most restrictive upper bound (lowest version)
-			// Since constraints are already sorted by version, take the first upper bound
-			if len(upperBounds) > 0 {
-				mostRestrictiveUpper = &upperBounds[0]
-			}
-
-			// Create single interval from most restrictive bounds
-			if mostRestrictiveLower != nil && mostRestrictiveUpper != nil {
+	// Handle range constraints (lower/upper bounds). The constraints are sorted
+	// by version, so the VERS algorithm walks them once: an upper bound that
+	// comes first is an interval without lower bound, a lower bound directly
+	// followed by an upper bound is a closed interval, and a lower bound that
+	// comes last is an interval without upper bound. A bound followed by another
+	// bound of the same kind is subsumed by it (the more restrictive one wins).
+	var bounds []constraint
+	for _, constraint := range constraints {
+		switch constraint.operator {
+		case ">=", ">", "<=", "<":
+			bounds = append(bounds, constraint)
+		}
+	}
+	isLower := func(c constraint) bool { return c.operator == ">=" || c.operator == ">" }
+	for i, bound := range bounds {
+		switch {
+		case !isLower(bound):
+			if i == 0 {
 				intervals = append(intervals, interval{
-					lower:          mostRestrictiveLower.version,
-					lowerInclusive: mostRestrictiveLower.operator == ">=",
-					upper:          mostRestrictiveUpper.version,
-					upperInclusive: mostRestrictiveUpper.operator == "<=",
-				})
-			} else if mostRestrictiveLower != nil {
-				intervals = append(intervals, interval{
-					lower:          mostRestrictiveLower.version,
-					lowerInclusive: mostRestrictiveLower.operator == ">=",
-				})
-			} else if mostRestrictiveUpper != nil {
-				intervals = append(intervals, interval{
-					upper:          mostRestrictiveUpper.version,
-					upperInclusive: mostRestrictiveUpper.operator == "<=",
+					upper:          bound.version,
+					upperInclusive: bound.operator == "<=",
 				})
 			}
-		} else {
-			// Handle non-merge cases: either pairing or individual intervals
-
-			// If equal counts, pair them to create intervals (e.g., alternating pattern)
-			if len(lowerBounds) == len(upperBounds) && len(lowerBounds) > 1 {
-				// Pair constraints to create intervals
-				for i := 0; i < len(lowerBounds); i++ {
-					intervals = append(intervals, interval{
-						lower:          lowerBounds[i].version,
-						lowerInclusive: lowerBounds[i].operator == ">=",
-						upper:          upperBounds[i].version,
-						upperInclusive: upperBounds[i].operator == "<=",
-					})
-				}
-			} else {
-				// Create individual intervals for each constraint
-				// This allows each constraint to be satisfied independently
-
-				// Create interval for each lower bound
-				for _, lower := range lowerBounds {
-					intervals = append(intervals, interval{
-						lower:          lower.version,
-						lowerInclusive: lower.operator == ">=",
-					})
-				}
-
-				// Create interval for each upper bound
-				for _, upper := range upperBounds {
-					intervals = append(intervals, interval{
-						upper:          upper.version,
-						upperInclusive: upper.operator == "<=",
-					})
-				}
-			}
+		case i+1 < len(bounds) && !isLower(bounds[i+1]):
+			intervals = append(intervals, interval{
+				lower:          bound.version,
+				lowerInclusive: bound.operator == ">=",
+				upper:          bounds[i+1].version,
+				upperInclusive: bounds[i+1].operator == "<=",
+			})
+		case i == len(bounds)-1:
+			intervals = append(intervals, interval{
+				lower:          bound.version,
+				lowerInclusive: bound.operator == ">=",
+			})
 		}
 	}
 
 	return intervals, nil
-}
-
-// shouldMergeConstraints determines whether constraints should be merged (most restrictive)
-// or create multiple intervals based on the constraint pattern
-func shouldMergeConstraints(lowerBounds, upperBounds []constraint) bool {
-	// Based on analysis of failing/passing tests:
-	//
-	// PASSING tests that expect merging (should return true here):
-	// - "multiple_lower_bounds_-_should_take_most_restrictive": 2 lower + 1 upper -> merge
-	// - "multiple_upper_bounds_-_should_take_most_restrictive": 1 lower + 2 upper -> merge
-	//
-	// FAILING tests that expect individual intervals (should return false here):
-	// - "maven_unordered_constraints_-_outside_range": 2 lower + 1 upper -> individual intervals
-	//
-	// This creates a contradiction! Same pattern (2 lower + 1 upper) expects different behavior.
-	// The only difference might be the specific constraint values or test expectations.
-
-	// Let me try a different approach: merge only when counts are equal (suggesting pairing)
-	// or when there's exactly one of each bound
-
-	// Case 1: Exactly one lower and one upper -> clearly should merge
-	if len(lowerBounds) == 1 && len(upperBounds) == 1 {
-		return true
-	}
-
-	// Case 2: Multiple bounds of same type -> should merge to most restrictive
-	// This handles the "should_take_most_restrictive" test cases
-	if (len(lowerBounds) > 1 && len(upperBounds) == 1) || (len(lowerBounds) == 1 && len(upperBounds) > 1) {
-		return true
-	}
-
-	// Case 3: Equal counts suggest pairing intent -> pair them
-	if len(lowerBounds) == len(upperBounds) && len(lowerBounds) > 1 {
-		return false // Pair them, which happens in the non-merge logic
-	}
-
-	// Case 4: Multiple bounds of both types with unequal counts -> individual intervals
-	return false
 }
 
 // Contains checks if a version satisfies a VERS range using the stateless API.
